@@ -160,8 +160,10 @@ def main():
                 text += (" Thorough additionally: 16 libFuzzer processes (SanitizerCoverage feedback, ASan, seeded corpus + dictionary, bounded by -runs) "
                          "drive the same per-input monitor; recorded failures are confirmed and minimised on the release build.")
             if pid not in ("C16", "C20"):
-                text += (" Every workload runs on two builds of the harness: with debug assertions and overflow checks on (debug_assert!, arithmetic "
-                         "overflow, cfg(debug_assertions) paths) and with both off (the profile users ship; cfg(not(debug_assertions)) paths).")
+                text += (" Every workload runs on three builds of the harness: with debug assertions and overflow checks on (debug_assert!, arithmetic "
+                         "overflow, cfg(debug_assertions) paths), with both off (the profile users ship; cfg(not(debug_assertions)) paths), and with "
+                         "default-features = false on both library crates (what a downstream user of `default-features = false` links; a feature that is on "
+                         "by default in one crate and off in the other is only reachable there).")
             if pid == "C16":
                 text += " The positive program is built and run in the dev profile and in a release profile without debug assertions."
             if pid in MEMCHECK:
